@@ -36,13 +36,13 @@ theorem C11_peak_load_window_no_plan_inside_windows (ops : BatOps α B) (env : P
 
 /-- **No grid energy now.**  Vehicles whose planned power for the current step is not positive get no command
 (and the connector's loads stay as they are) unless the connector has a generation surplus in this step
-(`t0` = the prognosis of the current step after all plans; with a surplus the strategy hands it to the vehicles,
-which is not grid energy). -/
-theorem C11_peak_load_window_no_command_without_plan (ops : BatOps α B) (t0 : α) (ht0 : 0 ≤ t0)
+(`surplus = -min(timesteps[0]["power"], 0)`, the prognosis of the current step after all plans; a surplus is handed
+to the vehicles, which is not grid energy). -/
+theorem C11_peak_load_window_no_command_without_plan (ops : BatOps α B) (surplus : α) (hs : ¬ 0 < surplus)
     (plans : List (PVeh α B × α)) (w w' : PWorld α B) (gc gc' : GcS α) (cmds cmds' : List (String × α))
     (hq : ∀ q ∈ plans, q.2 ≤ 0)
-    (h : chargeVehicles ops t0 plans (w, gc, cmds) = .ok (w', gc', cmds')) : gc' = gc ∧ cmds' = cmds :=
-  chargeVehicles_no_cmd ops t0 ht0 plans _ _ hq h
+    (h : chargeVehicles ops plans surplus (w, gc, cmds) = .ok (w', gc', cmds')) : gc' = gc ∧ cmds' = cmds :=
+  chargeVehicles_no_cmd ops surplus hs plans _ _ hq h
 
 /-- non-vacuity, end to end: at 02:00, inside the window 02:00–04:00, a vehicle that needs 5 kWh until 08:00: the
 four steps outside the window suffice (1.25 kW each), the plan leaves the window steps alone, the planned power
